@@ -13,11 +13,11 @@ def gen_ops(rng, n):
     ops = []
     for _ in range(n):
         i = rng.choice([1, 2, 3])
-        ops.append(rng.choice(['c', 'c', 'd', 'w', 'w', 'w', 'x']) + str(i))
+        ops.append(rng.choice(['c', 'c', 'd', 'w', 'w', 'w', 'x', 'y']) + str(i))
     return ops
 
 
-def run_real(ops, addr, srv):
+def run_real(ops, addr, srv, streams=None):
     """returns (replies, failure or None)"""
     from pyworkers.remote_context import RemoteContext
     from pyworkers.persistent_remote import PersistentRemoteWorker
@@ -75,6 +75,12 @@ def run_real(ops, addr, srv):
                 s.close()
             watchdog(faulty, 5)
             time.sleep(0.15)
+        elif kind == 'y':
+            # a faulty client: sends a COMPLETE worker-in-context request, reads the control address and goes away
+            # without ever connecting to it (the context's helper is in the middle of rebuilding the worker)
+            if streams and i in streams:
+                watchdog(lambda: RP.handshake_fault(addr, streams[i], 'no-connect', 'fin' if k % 2 else 'rst'), 12)
+                time.sleep(0.3)
         else:
             def mkw():
                 return PersistentRemoteWorker(None, host=addr, context=i, main_path='')
@@ -165,17 +171,21 @@ def main(ctx: Ctx):
     T = ctx.thorough
     rng = ctx.rng
     hists = [['w2', 'c2', 'w2', 'c2', 'd2', 'w2', 'c2', 'w2'], ['c1', 'c2', 'w1', 'w2', 'd1', 'w2', 'd3', 'c1'], ['c1', 'w1', 'x1', 'w1', 'c1', 'd1', 'c1']]
+    hists.append(['c1', 'w1', 'y1', 'w1', 'c2', 'y2', 'w2', 'd1', 'y1', 'c1', 'w1'])
     hists += [gen_ops(rng, rng.randint(3, 8)) for _ in range(10 if not T else 120)]
     # a faulty client changes nothing in the table; a registration carries its position in the history as payload
-    model = ctx.model(['c18 ' + ' '.join((f'{o}:{k + 1}' if o[0] == 'c' else o) for k, o in enumerate(h) if o[0] != 'x') for h in hists])
+    model = ctx.model(['c18 ' + ' '.join((f'{o}:{k + 1}' if o[0] == 'c' else o) for k, o in enumerate(h) if o[0] not in 'xy') for h in hists])
     sess = inject.Session()
     try:
         from common import spawn_server
+        from pyworkers.persistent_remote import PersistentRemoteWorker
+        # complete worker-in-context requests, recorded from the real client code (one per context id)
+        streams = {i: RP.record_stream(lambda a, i=i: PersistentRemoteWorker(None, host=a, context=i, main_path='')) for i in (1, 2, 3)}
         for hi, ops in enumerate(hists):
             sess.write_conf(None)
             srv = spawn_server(('127.0.0.1', 0))
             try:
-                replies, fail = run_real(ops, srv.addr, srv)
+                replies, fail = run_real(ops, srv.addr, srv, streams)
             finally:
                 for p in RP.descendants(srv.pid) + [srv.pid]:
                     try:
@@ -192,7 +202,7 @@ def main(ctx: Ctx):
                 m = [x for x in model[hi].split(',') if x]
                 if m != replies:
                     # the property itself, stated on the replies: the model is the dictionary specification
-                    ops = [o for o in ops if o[0] != 'x']
+                    ops = [o for o in ops if o[0] not in 'xy']
                     k = next((j for j in range(min(len(m), len(replies))) if m[j] != replies[j]), min(len(m), len(replies)))
                     ctx.fail(f'reply-differs-from-dictionary:{ops[k][0] if k < len(ops) else "?"}:{replies[k] if k < len(replies) else "missing"}',
                              f'history {" ".join(ops)}: op #{k} ({ops[k] if k < len(ops) else "?"}) replied {replies[k] if k < len(replies) else None}, a dictionary of contexts says {m[k] if k < len(m) else None}', desc)
@@ -215,7 +225,9 @@ def replay(case):
         return
     srv = spawn_server(('127.0.0.1', 0))
     try:
-        print(run_real(case['ops'], srv.addr, srv))
+        from pyworkers.persistent_remote import PersistentRemoteWorker
+        streams = {i: RP.record_stream(lambda a, i=i: PersistentRemoteWorker(None, host=a, context=i, main_path='')) for i in (1, 2, 3)}
+        print(run_real(case['ops'], srv.addr, srv, streams))
     finally:
         for p in RP.descendants(srv.pid) + [srv.pid]:
             os.kill(p, signal.SIGKILL)
